@@ -132,6 +132,8 @@ type HC struct {
 	V HInner
 	A [2]*int
 	Z int
+	// maps as map values; the same inner map may sit under two keys
+	MM map[string]map[string]int
 }
 
 type hcSource struct {
@@ -204,6 +206,14 @@ func (s *hcSource) build(r *RNG, t *dials.Type) reflect.Value {
 		setField("Z", r.Intn(1000))
 	}
 	if r.Chance(40) {
+		a := pm()
+		b := a
+		if r.Chance(40) {
+			b = pm()
+		}
+		setField("MM", map[string]map[string]int{"a": a, "b": b})
+	}
+	if r.Chance(40) {
 		setField("A", [2]*int{pi(), pi()})
 	}
 	// nested pointerified structs N and V
@@ -261,7 +271,7 @@ func checkC02(c *Ctx) {
 		"stream D: VerifCompose with 0-3 layers sharing memory among defaults and layers vs the heap model of compose (hp compose): same comparison. " +
 		"non-trivial: A = at least one layer and at least 2 reference-typed addresses in the result; B = at least 3 reports; C = outcome ok, the base changed and reaches at least 3 addresses; D = ok, at least one layer, at least 3 addresses; distinct = by canonical input text"
 	nA, nB := c.scale(1500, 40000), c.scale(300, 8000)
-	defer checkC02Overlay(c) // streams C and D (c02ov.go)
+	defer checkC02Overlay(c)                          // streams C and D (c02ov.go)
 	if only := os.Getenv("C02_STREAMS"); only != "" { // debugging aid: e.g. C02_STREAMS=CD runs the model streams alone
 		if !strings.Contains(only, "A") {
 			nA = 0
